@@ -77,6 +77,13 @@ type Crash struct {
 	// make progress any more. BlockedIn names the /repo functions they are blocked in.
 	Deadlock  bool   `json:"deadlock,omitempty"`
 	BlockedIn string `json:"blocked_in,omitempty"`
+	// CPUSeconds (Kind watchdog only): processor time the worker consumed between the start of the
+	// case and the moment the watchdog fired; WatchdogS is the watchdog period. A case that burned
+	// (nearly) the whole period on a processor without finishing is spinning, not starved.
+	CPUSeconds float64 `json:"cpu_seconds,omitempty"`
+	WatchdogS  float64 `json:"watchdog_s,omitempty"`
+	// RunningIn (Kind watchdog only): the /repo function on top of a running or runnable goroutine.
+	RunningIn string `json:"running_in,omitempty"`
 }
 
 // Info describes a property check for the evidence file.
